@@ -176,7 +176,7 @@ impl LimitManager {
                 if requests <= self.max_requests {
                     Action::Passed
                     // if the client goes past 3x usage, just drop connection
-                } else if requests <= self.max_requests * 3 {
+                } else if requests <= self.max_requests.saturating_mul(3) {
                     Action::Send
                 } else {
                     Action::Drop
